@@ -66,23 +66,25 @@ def float_bits(x):
     return struct.unpack("<Q", struct.pack("<d", x))[0]
 
 
-def value_src(v):
+def value_src(v, big=None):
     """python model of a JSON-shaped value -> Noulith literal source.
-    model: None | int | float | str | list | dict (str keys, insertion ordered)"""
+    model: None | int | float | str | list | dict (str keys, insertion ordered).
+    big: optional predicate - the integers it selects are written in BIG representation (the value of an
+    integer, never the way it happens to be stored, decides what a codec produces)"""
     if v is None:
         return "null"
     if isinstance(v, bool):
         raise ValueError("no booleans")
     if isinstance(v, int):
-        return numgen.lit(v)
+        return int_src(v, "B") if big and big(v) else numgen.lit(v)
     if isinstance(v, float):
         return float_src(v)
     if isinstance(v, str):
         return str_lit(v)
     if isinstance(v, list):
-        return "[" + ", ".join(value_src(x) for x in v) + "]"
+        return "[" + ", ".join(value_src(x, big) for x in v) + "]"
     if isinstance(v, dict):
-        return "{" + ", ".join("%s: %s" % (str_lit(k), value_src(x)) for k, x in v.items()) + "}"
+        return "{" + ", ".join("%s: %s" % (str_lit(k), value_src(x, big)) for k, x in v.items()) + "}"
     raise ValueError(type(v))
 
 
